@@ -25,8 +25,25 @@ class EnvFault(Exception):
     """a user-defined exception type (constructor takes the message only)"""
 
 
-EXC = [ValueError, KeyError, RuntimeError, EnvFault]
+class TwoArgFault(Exception):
+    """a user-defined exception type whose constructor takes two arguments"""
+
+    def __init__(self, code, msg):
+        super().__init__(code, msg)
+        self.code, self.msg = code, msg
+
+
+EXC = [ValueError, KeyError, RuntimeError, EnvFault, UnicodeDecodeError, TwoArgFault]
 EXC_NAMES = [c.__name__ for c in EXC]
+
+
+def make_exc(code: int, text: str) -> BaseException:
+    c = EXC[code]
+    if c is UnicodeDecodeError:
+        return UnicodeDecodeError("utf-8", b"x", 0, 1, text)
+    if c is TwoArgFault:
+        return TwoArgFault(code, text)
+    return c(text)
 MAX_SLEEP = 40.0
 
 # fields of the control block, one slot per worker
@@ -91,7 +108,7 @@ class FaultEnv(ParallelEnv):
             c.set(j, F_RAISED, int(b[1]))
             c.set(j, F_KIND, K_RAISE)
             c.set(j, F_DONE, n + 1)
-            raise EXC[int(b[1])](f"injected fault at command {n} of worker {j}")
+            raise make_exc(int(b[1]), f"injected fault at command {n} of worker {j}")
         if b[0] == "die":
             c.set(j, F_KIND, K_DIE)
             c.set(j, F_DONE, n + 1)
